@@ -4,12 +4,13 @@ package rules
 // through the loader's overlay (nothing is written to /repo). The named rule must flag
 // the named construct on the mutated program.
 type Mutant struct {
-	Name      string
-	Property  string
-	File      string // relative to the repository root
-	Old, New  string
-	Rule      string
-	Construct string // substring of the construct key that must be reported
+	Name       string
+	Property   string
+	File       string // relative to the repository root
+	Old, New   string
+	Old2, New2 string // optional second spot in the same file
+	Rule       string
+	Construct  string // substring of the construct key that must be reported
 }
 
 var mutants []*Mutant
